@@ -69,3 +69,29 @@ Example C10_example :
   let b := {| l_type := Some "object"; l_format := ""; l_required := ["x"]; l_props := [("x", "s"); ("n", "s")]; l_addl := ASchema "s"; l_nullable := false |} in
   option_map (fun r => (keys r, l_required r, l_addl r)) (merge_all [a; b]) = Some (["id"; "n"; "x"], ["id"; "x"], ASchema "s").
 Proof. vm_compute. reflexivity. Qed.
+
+(** The legacy merge (compatibility.old-merge-schemas, mergeSchemasV1) and additional properties: the merged type has
+    them, with the member's value type, as soon as some member has them (or the composition is rejected because two
+    members disagree on the value type), and the order of the members is irrelevant.  The flattened form of the test -
+    a member WITHOUT additional properties takes the aggregate's away - is refuted: it forgets them, depends on the
+    order, and accepts members that disagree. *)
+Theorem C10_legacy_additional_properties_kept : forall ms t,
+  In (Some t) ms -> v1_addl ms = Some (Some t) \/ v1_addl ms = None.
+Proof. exact v1_addl_kept. Qed.
+Print Assumptions C10_legacy_additional_properties_kept.
+
+Theorem C10_legacy_additional_properties_absent : forall ms,
+  v1_addl ms = Some None <-> (forall m, In m ms -> m = None).
+Proof. exact v1_off_iff. Qed.
+Print Assumptions C10_legacy_additional_properties_absent.
+
+Theorem C10_legacy_additional_properties_order : forall ms ms', Permutation ms ms' -> v1_addl ms = v1_addl ms'.
+Proof. exact v1_addl_perm. Qed.
+Print Assumptions C10_legacy_additional_properties_order.
+
+Theorem C10_legacy_flattened_test_refuted :
+  v1_addl [Some "int"; None] = Some (Some "int") /\ v1_addl_flat [Some "int"; None] = Some None
+  /\ v1_addl_flat [None; Some "int"] = Some (Some "int")
+  /\ v1_addl [Some "int"; None; Some "string"] = None /\ v1_addl_flat [Some "int"; None; Some "string"] = Some (Some "string").
+Proof. exact v1_flat_refuted. Qed.
+Print Assumptions C10_legacy_flattened_test_refuted.
